@@ -125,7 +125,7 @@ def check_mpo(ctx, name, H, ref, case, tol=1e-10):
     except Exception as e:
         ctx.violation(name + ':unusable-mpo', repr(e)[:300], case)
         return None
-    if M.shape != ref.shape or np.linalg.norm(M - ref) > tol * max(1.0, np.linalg.norm(ref)):
+    if M.shape != ref.shape or not (np.linalg.norm(M - ref) <= tol * max(1.0, np.linalg.norm(ref))):
         ctx.violation(name + ':operator-differs', '|MPO - dense| = %g (|dense| = %g)' % (np.linalg.norm(M - ref) if M.shape == ref.shape else -1, np.linalg.norm(ref)), case)
         return None
     return M
@@ -147,7 +147,7 @@ def do_expectation_value(ctx, rng, i):
     psi.norm = float(rng.uniform(0.5, 2))
     got = H.expectation_value(psi)
     exp = np.vdot(vec.reshape(-1), ref @ vec.reshape(-1))
-    if abs(got - exp) > 1e-9 * max(1, abs(exp)):
+    if not (abs(got - exp) <= 1e-9 * max(1, abs(exp))):
         ctx.violation('expectation_value:wrong', 'got %r expected %r (normalised state)' % (got, exp), case)
     finish(ctx, i, 'expectation_value', H, kind, len(sites), case)
 
@@ -161,7 +161,7 @@ def do_variance(ctx, rng, i):
     got = H.variance(psi)
     e = np.vdot(v, ref @ v)
     exp = np.vdot(v, ref @ (ref @ v)) - e**2
-    if abs(got - exp) > 1e-8 * max(1, abs(exp), abs(e)**2):
+    if not (abs(got - exp) <= 1e-8 * max(1, abs(exp), abs(e)**2)):
         ctx.violation('variance:wrong', 'got %r expected %r' % (got, exp), case)
     finish(ctx, i, 'variance', H, kind, len(sites), case)
 
@@ -266,11 +266,11 @@ def do_overlap(ctx, rng, i):
     ctx.count('op.overlap')
     got = H.overlap(H2)
     exp = np.trace(ref.conj().T @ ref2)
-    if abs(got - exp) > 1e-9 * max(1, abs(exp)):
+    if not (abs(got - exp) <= 1e-9 * max(1, abs(exp))):
         ctx.violation('overlap:wrong', 'got %r expected Tr(A^d B) = %r' % (got, exp), case)
     d = H.distance(H2)
     expd = np.linalg.norm(ref - ref2)
-    if abs(d - expd) > 1e-7 * max(1, expd):
+    if not (abs(d - expd) <= 1e-7 * max(1, expd)):
         ctx.violation('distance:wrong', 'got %r expected %r' % (d, expd), case)
     finish(ctx, i, 'overlap', H, kind, len(sites), case)
 
@@ -290,7 +290,7 @@ def do_to_TermList(ctx, rng, i):
     for s, t in zip(tl.strength, tl.terms):
         R = R + s * dense.term_matrix(sites, t, autoJW=False)
     # Id-only contributions may be dropped / represented as explicit 'Id' terms: compare including what was returned
-    if np.linalg.norm(R - ref) > 1e-9 * max(1, np.linalg.norm(ref)):
+    if not (np.linalg.norm(R - ref) <= 1e-9 * max(1, np.linalg.norm(ref))):
         ctx.violation('to_TermList:does-not-reproduce-operator', '|sum(terms) - H| = %g' % np.linalg.norm(R - ref), case)
     # `start`: the terms whose left-most index is in `start`, in any order of the start sites; together they partition the full list
     Ls = len(sites)
@@ -308,7 +308,7 @@ def do_to_TermList(ctx, rng, i):
                 R2 = R2 + s_ * dense.term_matrix(sites, t_, autoJW=False)
                 n_terms += 1
         ctx.count('to_TermList.start_partition_checked')
-        if n_terms != len(tl.terms) or np.linalg.norm(R2 - R) > 1e-9 * max(1, np.linalg.norm(R)):
+        if n_terms != len(tl.terms) or not (np.linalg.norm(R2 - R) <= 1e-9 * max(1, np.linalg.norm(R))):
             ctx.violation('to_TermList(start):partition-differs-from-full-list', 'start sets %r / %r give %d terms (full list %d), '
                           '|sum - full| = %g' % (order[:cut], order[cut:], n_terms, len(tl.terms), np.linalg.norm(R2 - R)), case)
     # prefactor of one of the input terms (single operator strings on contiguous sites)
@@ -319,7 +319,7 @@ def do_to_TermList(ctx, rng, i):
             got = H.prefactor(ks[0], ops)
             O = dense.term_matrix(sites, t, autoJW=False)
             exp = np.trace(O.conj().T @ ref) / np.trace(O.conj().T @ O)
-            if abs(got - exp) > 1e-9 * max(1, abs(exp)):
+            if not (abs(got - exp) <= 1e-9 * max(1, abs(exp))):
                 ctx.violation('prefactor:wrong', 'ops %r at %d: got %r expected %r' % (ops, ks[0], got, exp), case)
             break
     finish(ctx, i, 'to_TermList', H, kind, len(sites), case)
@@ -414,9 +414,9 @@ def do_apply(ctx, rng, i):
         if method in ('SVD', 'zip_up'):
             # ledger: the reported error is the sum of the errors of the truncations that were performed
             ctx.count('apply.ledger_checked')
-            if sum(performed) > 1e-14:
+            if not (sum(performed) <= 1e-14):
                 ctx.count('apply.ledger_nonzero')
-            if abs(eps - sum(performed)) > 1e-10 * max(1e-6, sum(performed)):
+            if not (abs(eps - sum(performed)) <= 1e-10 * max(1e-6, sum(performed))):
                 ctx.violation('apply.%s:reported-error-differs-from-sum-of-truncations' % method, 'reported eps %r, sum over the %d '
                               'truncations performed %r' % (eps, len(performed), sum(performed)), case)
     got = dense.finite_vector(psi).reshape(-1)
@@ -425,7 +425,7 @@ def do_apply(ctx, rng, i):
     ov = abs(np.vdot(got, target)) / (np.linalg.norm(got) * tn)
     untruncated = chi_max >= 100
     if untruncated:
-        if abs(ov - 1) > 1e-7 or abs(np.linalg.norm(got) - tn) > 1e-6 * max(1, tn):
+        if not (abs(ov - 1) <= 1e-7) or not (abs(np.linalg.norm(got) - tn) <= 1e-6 * max(1, tn)):
             ctx.violation('apply.%s:wrong-state-without-truncation' % method, 'overlap %r, |O psi| = %r, |result| = %r' % (ov, tn, np.linalg.norm(got)), case)
     else:
         # SVD compression truncates in canonical form: the reported discarded weight bounds the loss of fidelity (zip-up truncates in
@@ -574,6 +574,6 @@ def do_infinite(ctx, rng, i):
             tb = traceback.format_exc()
             ctx.violation('infinite.%s:raises-%s' % (fn, type(e).__name__), tb[-500:], case)
             continue
-        if abs(got - e_ref) > 1e-8 * max(1, abs(e_ref)):
+        if not (abs(got - e_ref) <= 1e-8 * max(1, abs(e_ref))):
             ctx.violation('infinite.%s:wrong' % fn, 'got %r expected density %r' % (got, e_ref), case)
     ctx.sig(('infinite', kind, L, repr(terms)), nontrivial=True)
